@@ -98,14 +98,14 @@ theorem removeComponentApi_shrinks (g : G) (c : Nat) (g' : G) (h : removeCompone
     exact (disconnectDeep_shrinks _ _ _ h1).trans (removeComp_shrinks _ _ _ h2)
   · cases h
 
-theorem removeChild_shrinks (g : G) (hl : List Nat) (p c : Nat) (r : G × List Nat) (h : removeChild g hl p c = .ok r) : Shrinks g r.1 := by
+theorem removeChild_shrinks (g : G) (hl : List IfH) (p c : Nat) (r : G × List IfH) (h : removeChild g hl p c = .ok r) : Shrinks g r.1 := by
   unfold removeChild at h; split at h
   · obtain ⟨g1, h1, h2⟩ := bind_ok h
     obtain ⟨a, ha, rfl⟩ := map_ok h2
     exact (disconnectDeep_shrinks _ _ _ h1).trans (removeCp_shrinks _ _ _ _ ha)
   · cases h
 
-theorem unpeer_shrinks (g : G) (ha hb : List Nat) (r : G × List Nat × List Nat) (h : unpeer g ha hb = .ok r) : Shrinks g r.1 := by
+theorem unpeer_shrinks (g : G) (ha hb : List IfH) (r : G × List IfH × List IfH) (h : unpeer g ha hb = .ok r) : Shrinks g r.1 := by
   unfold unpeer at h; split at h
   · cases h
   · obtain ⟨g1, h1, h2⟩ := bind_ok h
